@@ -4,12 +4,6 @@
 From LV Require Export Value Utf8.
 From LV Require Import Consts.
 
-Fixpoint prefixb (p s : str) : bool :=
-  match p, s with
-  | [], _ => true
-  | a :: p', b :: s' => N.eqb a b && prefixb p' s'
-  | _ :: _, [] => false
-  end.
 (* html.rs nr_escaped: the first listed prefix that matches *)
 Fixpoint first_prefix (ps : list str) (t : str) : nat :=
   match ps with [] => 0 | p :: ps' => if prefixb p t then length p else first_prefix ps' t end.
